@@ -185,7 +185,7 @@ func init() {
 	}}
 	properties["C07"] = propDef{run: func(c *Ctx) *PropertyRun {
 		return pr("other", "Decided: (R11) parent links mirror child links — a sentence of the statement itself: every child-link store in the three trees is paired with the parent-link store on the same path; (R21) the rebalancing machinery is wired on every path: red-black Put/Remove pass insertCase1/deleteCase1, the case chains hand over without dropping out; AVL balance factors are written only by the fix/rotation family, direct link changes report 'height changed', every reported change is answered by putFix/removeFix on the frame's own link and passed up, rotations are stored back; B-tree nodes that gained an entry go to split, nodes that lost one go to rebalance (or are a lending sibling / the collapsing root), borrow and merge move children with entries; (R32) insert/delete shifts and the split partition keep their indices consistent (no entry or child lost or duplicated); (R35) no path overwrites a field with a constant and then reads it back as the value to transfer (the colour hand-over `sibling.color = parent.color; parent.color = black` in the wrong order) — zero sites expected, guarded by a positive control; (R21 skeletons) the red-black insert/delete fix-ups with every case expanded: each path continues, absorbs or restructures only on the colour knowledge the algorithm prescribes, and Remove recolours the spliced child only at the root; (R42) after every rebalancing rotation of the AVL tree the stored balance factor of each touched node equals the height difference of its subtrees (symbolic-heap replay of putFix/removeFix in both directions, heights derived from the factors the path knows), and a fix-up after a recursive change under Children[i] is told the right side. Not decided: every numeric claim — comparator-call bounds, height bounds, min/max occupancy, equal leaf depth, colour invariants; these quantify over reachable shapes and no sound static argument in reach bounds them."+notBehaviour,
-			c.rule("R21", ruleR21), c.rule("R21b", ruleR21b), c.rule("R42", ruleR42), c.rule("R11", ruleR11), c.rule("R32", ruleR32), c.rule("R35", ruleR35), c.rule("R37", ruleR37), controlFor(c, "R35"))
+			c.rule("R21", ruleR21), c.rule("R21b", ruleR21b), c.rule("R42", ruleR42), c.rule("R43", ruleR43), c.rule("R11", ruleR11), c.rule("R32", ruleR32), c.rule("R35", ruleR35), c.rule("R37", ruleR37), controlFor(c, "R35"))
 	}}
 	properties["C08"] = propDef{run: func(c *Ctx) *PropertyRun {
 		return pr("other", "Decided: (R14) all 18 iterator types follow the cursor protocol: index cursors step exactly when inside the bound and saturate at n / -1, report true exactly when the new index is in 0..n-1, Begin/End store -1/n, linked cursors keep the element pointer in step, wrappers forward, tree cursors start at leftmost/rightmost and saturate at their sentinels, First ≡ Begin;Next, Last ≡ End;Prev, NextTo/PrevTo are the canonical search loop over (Index|Key, Value); (R10) Next↔Prev, First↔Last, NextTo↔PrevTo mirror images; (R11) the Parent links tree cursors climb; (R1) Index/Key/Value write nothing, movers write only the iterator; (R19b-index) the ring iterator's Value() reads the slot (start+index) % capacity — the same slot Values() lists at that position. Not decided: that the element reached at position i is Values()[i] for the other containers; B-tree climb/descend index logic; heap level-sort."+notBehaviour,
